@@ -82,13 +82,13 @@ static void gen_unit(GenSt& g, int uid, int depth, bool body, int mult, bool dir
 }
 std::string h_gen(Src& s) {
     if (drv_flag("--isowait")) {
-        // NOT REGISTERED IN ANY PLAN (see DESIGN.md s.11.21): on the unchanged tree this shape ends in DEADLOCK verdicts that could not be attributed in time.
         // directed: a task suspends, its thread goes on with a sibling that waits INSIDE this_task_arena::isolate until the suspended unit has finished.
         // With one slot nobody but that thread can take the resume task, and it sits in an isolated wait: resumption must not depend on the isolation tag.
         int par = s.range(1, 2), mc = s.range(1, 2), res = mc == 2 ? (int)s.choose(2) : (int)s.choose(2); bool filler = s.coin(2);
         int m = s.coin(3) ? 0 : 2;
         std::string o = "cfg par=" + std::to_string(par) + " arena=" + std::to_string(mc) + ":" + std::to_string(res) + " ext=" + std::to_string(1 + (int)s.choose(2)) + " twin=0\n";
-        o += std::string("u 0 N1,2") + (filler ? ",3" : "") + "\n";
+        // spawn order: the waiting unit 2 is spawned before unit 1, so a single thread (newest first) runs unit 1 first -- it suspends -- and then unit 2
+        { int ord = (int)s.choose(3); o += std::string("u 0 N") + (ord == 2 ? "1,2" : "2,1") + (filler ? ",3" : "") + "\n"; if (filler && ord == 1) { o = o.substr(0, o.rfind("u 0 ")) + "u 0 N3,2,1\n"; } }
         o += "u 1 W" + std::to_string(s.range(0, 3)) + " S" + std::to_string(m) + ":" + std::to_string(s.range(0, 5)) + ":" + std::to_string(s.range(0, 12));
         if (s.coin(3)) o += " S2:" + std::to_string(s.range(0, 3)) + ":" + std::to_string(s.range(0, 8));
         o += " W" + std::to_string(s.range(0, 2)) + "\n";
@@ -116,7 +116,7 @@ struct Susp {
     int unit = 0, mode = 0, cbw = 0, d = 0;
     tbb::task::suspend_point sp = nullptr;
     int th_s = -1, th_c = -1, th_r = -1;
-    uint64_t cb_start = 0, cb_end = 0, r_inv = 0, r_ret = 0, c_enter = 0, c_exit = 0;
+    uint64_t cb_start = 0, cb_end = 0, r_inv = 0, r_ret = 0, c_enter = 0, c_exit = 0, r_step = 0;
     int cont = 0, rcalls = 0, pre_state = -1; bool inside = false, cb_active = false, direct = false;
     uintptr_t stack = 0;
 };
@@ -170,7 +170,7 @@ static void do_resume(int sid) {
     vs_work(1);                                   // the decision point in front of the (atomic) peek + first operation of resume()
     Susp& s = SU[sid];
     if (s.rcalls++) vs_inconclusive("BAD-CASE", "harness resumed suspension %d twice", sid);
-    s.th_r = vs_self(); s.r_inv = vs_now();
+    s.th_r = vs_self(); s.r_inv = vs_now(); s.r_step = vs_steps();
     // resume()'s first shared-memory operation is the exchange on m_stack_state: run exactly that one point without a switch so that
     // the raw value read here is the value the exchange sees (everything after it is scheduled normally)
     vs_solo_begin(1);
@@ -258,7 +258,9 @@ static void run_unit(int uid, int act, bool direct) {
             if (ACT[target].finished) break;
             n_iso_waits++;
             tbb::this_task_arena::isolate([target] {
-                tbb::task_group tg; IsoHold h; h.h = tg.defer([] {}); iso_holds[target].push_back(&h);
+                tbb::task_group tg; IsoHold h; h.h = tg.defer([] {});
+                // register, then look again: the unit may have finished while the handle was being made (no decision point between these two statements)
+                if (ACT[target].finished) h.h = tbb::task_handle(); else iso_holds[target].push_back(&h);
                 int anchor = 0; uintptr_t k = stack_key(&anchor); waiting.push_back({ k, (uintptr_t)&anchor });
                 tg.wait();
                 for (size_t i = 0; i < waiting.size(); i++) if (waiting[i].frame == (uintptr_t)&anchor) { waiting.erase(waiting.begin() + (long)i); break; }
@@ -307,6 +309,14 @@ static std::string pending_dump() {
 }
 static void on_deadlock(const char* d) { vs_violation("DEADLOCK", "%s | pending:%s", d, pending_dump().c_str()); }
 static void on_fixpoint(const char* d) { vs_violation("SPIN-FIXPOINT", "%s | pending:%s", d, pending_dump().c_str()); }
+// the step budget is exhausted (the run would be closed as inconclusive): a task whose resume() call returned more than a million decision points ago and that
+// has still not continued, although threads of its arena kept running all the time, has been forgotten (a livelock with writes is no fix-point, so only this
+// progress obligation can name it)
+static void on_budget(const char* d) {
+    for (size_t i = 0; i < SU.size(); i++) { Susp& s = SU[i];
+        if (s.rcalls == 1 && s.r_ret && !s.cont && vs_steps() - s.r_step > 1000000)
+            vs_violation("RESUME-FORGOTTEN", "suspension %zu (unit %d mode %d): resume() returned %lu decision points ago and the task has not continued, while the threads of the arena kept running (%s) | pending:%s", i, s.unit, s.mode, (unsigned long)(vs_steps() - s.r_step), d, pending_dump().c_str()); }
+}
 
 void h_run(Case& c) {
     int par = 2, mc = 2, res = 1, ext = 0, twin = 0;
@@ -333,7 +343,7 @@ void h_run(Case& c) {
     for (auto& u : U) for (auto& op : u.ops) { if (op.c == 'F' && (op.b <= 0 || op.b >= (int)U.size())) vs_inconclusive("BAD-CASE", "bad unit"); if ((op.c == 'X' || op.c == 'G') && (op.a <= 0 || op.a >= (int)U.size())) vs_inconclusive("BAD-CASE", "bad unit"); for (int s : op.subs) if (s <= 0 || s >= (int)U.size()) vs_inconclusive("BAD-CASE", "bad unit"); }
     if (res > mc) res = mc; g_mc = mc; g_par = par;
     vs_begin(c.sched.c_str());
-    vs_on_deadlock(on_deadlock); vs_on_fixpoint(on_fixpoint);
+    vs_on_deadlock(on_deadlock); vs_on_fixpoint(on_fixpoint); vs_on_budget(on_budget);
     {
         tbb::global_control gc(tbb::global_control::max_allowed_parallelism, (size_t)par);
         tbb::task_arena* arena = new tbb::task_arena(mc, (unsigned)res);
